@@ -24,6 +24,13 @@ def make_motor(c):
         kw = dict(no_load_electric_current=own['i0'], maximum_electric_current=own['imax'])
     m = DCMotor(name='m', inertia_moment=U.InertiaMoment(1, 'kgm^2'), no_load_speed=own['w0'],
                 maximum_torque=own['tmax'], **kw)
+    if c.get('warm'):
+        # the motor has already been used at this duty cycle (and another speed) before the parameters are re-expressed
+        m.angular_speed = U.AngularSpeed(0.37 * c['w'][0] + 1.0, c['w'][1])
+        m.pwm = c['D']
+        m.compute_torque()
+        if c['i0'] is not None:
+            m.compute_electric_current()
     # the user re-expresses a parameter object in place after construction (through the motor's property or
     # through their own reference): its physical magnitude, hence the characteristic, is unchanged
     for pname, unit, via in c.get('inplace', []):
@@ -44,7 +51,8 @@ def eval_motor(ctx, cases):
         try:
             m = make_motor(c)
             m.angular_speed = U.AngularSpeed(*c['w'])
-            m.pwm = c['D']
+            if not c.get('warm'):
+                m.pwm = c['D']          # (a warmed-up motor already has this duty cycle: it is not assigned again)
             m.compute_torque()
             T = sim.qsi(m.driving_torque)
             cur = None
@@ -185,6 +193,9 @@ def run_C08(ctx):
             c['inplace'] = [(pn, rng.choice(list(SI[PARAM_ATTR[pn][1]].keys())), rng.choice(['prop', 'own']))
                             for pn in rng.sample(['w0', 'tmax', 'i0', 'imax'], rng.randint(1, 3))]
             c['stream'] = 'parameters converted in place after construction'
+            if rng.random() < 0.5:
+                c['warm'] = True
+                c['stream'] += ' and first use'
         cases.append(c)
     # standstill / no-load at full duty
     for _ in range(ctx.budget(20, 300)):
